@@ -186,6 +186,80 @@ static void case_a(const J& g, W& w) {
     }
 }
 
+// element-level transforms: the repetition an element carries follows the linear part
+static void case_e(const J& g, W& w) {
+    const std::string& kind = g["kind"].s();
+    const J& op = g["op"];
+    const std::string& o = op["o"].s();
+    Tag t0 = make_tag(1, 2), t1 = make_tag(3, 4);
+    Vec2 c = {3, -2};
+    Vec2 p0 = c, p1 = c;
+    if (o == "mirror") {
+        const std::string& ax = op["ax"].s();
+        p1 = ax == "x" ? Vec2{c.x + 4, c.y} : (ax == "y" ? Vec2{c.x, c.y + 4} : Vec2{c.x + 3, c.y + 3});
+    }
+    Repetition* rep = NULL;
+    Polygon* poly = NULL;
+    FlexPath* fp = NULL;
+    RobustPath* rp = NULL;
+    Label* lb = NULL;
+    Reference* rf = NULL;
+    if (kind == "polygon") {
+        poly = make_polygon(t0);
+        rep = &poly->repetition;
+    } else if (kind == "flexpath") {
+        fp = make_flexpath(t0, t1);
+        rep = &fp->repetition;
+    } else if (kind == "robustpath") {
+        rp = make_robustpath(t0, t1);
+        rep = &rp->repetition;
+    } else if (kind == "label") {
+        lb = make_label(t0);
+        rep = &lb->repetition;
+    } else {
+        rf = (Reference*)allocate_clear(sizeof(Reference));
+        rf->init("sub");
+        rf->magnification = 1;
+        rep = &rf->repetition;
+    }
+    set_repetition(*rep, g["r"], Q);
+    if (o == "scale") {
+        double sx = (double)op["sx"].i(), sy = (double)op["sy"].i();
+        if (poly) poly->scale(Vec2{sx, sy}, c);
+        if (fp) fp->scale(sx, c);
+        if (rp) rp->scale(sx, c);
+    } else if (o == "mirror") {
+        if (poly) poly->mirror(p0, p1);
+        if (fp) fp->mirror(p0, p1);
+        if (rp) rp->mirror(p0, p1);
+    } else if (o == "rotate") {
+        double a = rot_angle(op["rot"]);
+        if (poly) poly->rotate(a, c);
+        if (fp) fp->rotate(a, c);
+        if (rp) rp->rotate(a, c);
+    } else {
+        double m = mag_value(op["mag"]), a = rot_angle(op["rot"]);
+        bool f = op["refl"].t();
+        if (poly) poly->transform(m, f, a, c);
+        if (fp) fp->transform(m, f, a, c);
+        if (rp) rp->transform(m, f, a, c);
+        if (lb) lb->transform(m, f, a, c);
+        if (rf) rf->transform(m, f, a, c);
+    }
+    bool ok = true;
+    w.ks("type_after", rep_type_name(*rep));
+    w.kv("count", (int64_t)rep->get_count());
+    Array<Vec2> offs = {};
+    rep->get_offsets(offs);
+    log_offsets(w, "offsets", offs, ok);
+    Array<Vec2> ext = {};
+    rep->get_extrema(ext);
+    log_offsets(w, "extrema", ext, ok);
+    w.kb("lat", ok);
+    offs.clear();
+    ext.clear();
+}
+
 int main(int argc, char** argv) {
     // h_c11 <gen.ndjson> <obs.ndjson> <Q>
     if (argc < 4) return 2;
@@ -200,6 +274,7 @@ int main(int argc, char** argv) {
         if (k == "q") case_q(g, w);
         else if (k == "t") case_t(g, w);
         else if (k == "a") case_a(g, w);
+        else if (k == "e") case_e(g, w);
         w.end_obj();
         fputs(w.s.c_str(), out);
         fputc('\n', out);
